@@ -85,6 +85,27 @@ static void op(long c, long, vh::Tok& t)
     size_t n; unsigned char* d = exact(a, n);
     String in((const char*)d, n); free(d);
     put_str(String::fromBase64(in));
+  } else if(!strcmp(o, "u8sw")) {
+    // sweep: prefix ++ [v] ++ suffix for every byte v; 256 fromString values, then 256 isValid bits
+    const char* a2 = t.n > 2 ? t.v[2] : "-";
+    size_t np, ns; unsigned char* pre = exact(a, np); unsigned char* suf = exact(a2, ns);
+    size_t n = np + 1 + ns; unsigned char* d = (unsigned char*)malloc(n);
+    memcpy(d, pre, np); memcpy(d + np + 1, suf, ns);
+    for(int v = 0; v < 256; ++v) { d[np] = (unsigned char)v; put_u64(Unicode::fromString((const char*)d, n)); putchar(' '); }
+    for(int v = 0; v < 256; ++v) { d[np] = (unsigned char)v; putchar(Unicode::isValid((const char*)d, n) ? '1' : '0'); if(v < 255) putchar(' '); }
+    free(d); free(pre); free(suf);
+  } else if(!strcmp(o, "b64sw")) {
+    // sweep: fromBase64(prefix ++ [v] ++ suffix) for every byte v; 256 results
+    const char* a2 = t.n > 2 ? t.v[2] : "-";
+    size_t np, ns; unsigned char* pre = exact(a, np); unsigned char* suf = exact(a2, ns);
+    size_t n = np + 1 + ns; unsigned char* d = (unsigned char*)malloc(n);
+    memcpy(d, pre, np); memcpy(d + np + 1, suf, ns);
+    for(int v = 0; v < 256; ++v) {
+      d[np] = (unsigned char)v;
+      String in((const char*)d, n);
+      put_str(String::fromBase64(in)); if(v < 255) putchar(' ');
+    }
+    free(d); free(pre); free(suf);
   } else if(!strcmp(o, "fromint")) { put_str(String::fromInt((int)parse_i64(a)));
   } else if(!strcmp(o, "fromuint")) { put_str(String::fromUInt((uint)parse_u64(a)));
   } else if(!strcmp(o, "fromint64")) { put_str(String::fromInt64((int64)parse_i64(a)));
